@@ -351,6 +351,29 @@ def r1_3(ctx):
                'the in-loop and end-of-block verification loops differ: %s' % _first_diff(bodies[0], bodies[1]))
 
 
+def _backtrack_factor(f, n):
+    """(destination object, factor) of an assignment to <dst>->backtrack whose right side
+    is a backtrack field, possibly times a constant; None otherwise"""
+    if n['k'] != 'bin' or n['op'] not in ('=', '*='):
+        return None
+    l = cu.strip_casts(f, f.kid(n, 0))
+    r = cu.strip_casts(f, f.kid(n, 1))
+    if l is None or r is None or l['k'] != 'member' or l['fld'] != 'backtrack':
+        return None
+    dst = canon(f, f.kid(l, 0))
+    if n['op'] == '*=':
+        c = cu.const_of(r)
+        return (dst, c, 'self') if c is not None else None
+    if r['k'] == 'member' and r['fld'] == 'backtrack':
+        return (dst, 1, canon(f, f.kid(r, 0)))
+    if r['k'] == 'bin' and r['op'] == '*':
+        a, b_ = cu.strip_casts(f, f.kid(r, 0)), cu.strip_casts(f, f.kid(r, 1))
+        for x, y in ((a, b_), (b_, a)):
+            if x is not None and x['k'] == 'member' and x['fld'] == 'backtrack' and cu.const_of(y) is not None:
+                return (dst, cu.const_of(y), canon(f, f.kid(x, 0)))
+    return None
+
+
 def r1_4(ctx):
     """atom transformations keep the atom where it was: the factor applied to
     byte positions is the factor applied to the backtrack distance"""
@@ -359,52 +382,67 @@ def r1_4(ctx):
     for f in prog.fns():
         if f.file != 'libyara/atoms.c' and not ctx.fixture:
             continue
-        bts = []
-        for n in f.all_nodes():
-            if n['k'] == 'bin' and n['op'] == '=':
-                l = cu.strip_casts(f, f.kid(n, 0))
-                r = cu.strip_casts(f, f.kid(n, 1))
-                if l is None or r is None or l['k'] != 'member' or l['fld'] != 'backtrack':
-                    continue
-                src, k = None, 1
-                if r['k'] == 'member' and r['fld'] == 'backtrack':
-                    src = r
-                elif r['k'] == 'bin' and r['op'] == '*':
-                    a, b = cu.strip_casts(f, f.kid(r, 0)), cu.strip_casts(f, f.kid(r, 1))
-                    for x, y in ((a, b), (b, a)):
-                        if x is not None and x['k'] == 'member' and x['fld'] == 'backtrack' and \
-                                cu.const_of(y) is not None:
-                            src, k = x, cu.const_of(y)
-                if src is not None:
-                    bts.append((n, canon(f, f.kid(l, 0)), canon(f, f.kid(src, 0)), k))
-        for n, dst, src, k in bts:
+        # byte copies  dst->atom.bytes[i * s] = g(.. [i] ..)  per destination object
+        scales = {}
+        for x in f.all_nodes():
+            if x['k'] == 'bin' and x['op'] == '=':
+                l = cu.strip_casts(f, f.kid(x, 0))
+                if l is not None and l['k'] == 'sub':
+                    base = canon(f, f.kid(l, 0))
+                    if not base.endswith('->atom.bytes'):
+                        continue
+                    dst = base[:-len('->atom.bytes')]
+                    idx = cu.strip_casts(f, f.kid(l, 1))
+                    rhs_idx = [y for y in f.walk(f.kid(x, 1)) if y['k'] == 'sub']
+                    if not rhs_idx:
+                        continue            # constant fill, not a copy
+                    sc = scales.setdefault(dst, set())
+                    if idx is not None and idx['k'] == 'ref':
+                        sc.add(1)
+                    elif idx is not None and idx['k'] == 'bin' and idx['op'] == '*':
+                        c = cu.const_of(cu.strip_casts(f, f.kid(idx, 1)))
+                        c = c if c is not None else cu.const_of(cu.strip_casts(f, f.kid(idx, 0)))
+                        sc.add(c)
+                    else:
+                        sc.add(None)
+        for dst, sc in sorted(scales.items()):
+            # the backtrack of dst: assigned here, or by the static helper that produced dst
+            k = None
+            where = None
+            for n in f.all_nodes():
+                bf = _backtrack_factor(f, n)
+                if bf is not None and bf[0] == dst:
+                    k = bf[1] if bf[2] != 'self' else (k or 1) * bf[1]
+                    where = n
+            if where is None or (k is not None and any(
+                    _backtrack_factor(f, n) is not None and _backtrack_factor(f, n)[2] == 'self'
+                    and _backtrack_factor(f, n)[0] == dst for n in f.all_nodes())):
+                pass
+            if where is None:
+                for n in f.all_nodes():
+                    src = None
+                    if n['k'] == 'bin' and n['op'] == '=' and canon(f, f.kid(n, 0)) == dst:
+                        src = cu.strip_casts(f, f.kid(n, 1))
+                    elif n['k'] == 'decl' and n.get('name') == dst and n.get('c'):
+                        src = cu.strip_casts(f, f.kid(n, 0))
+                    if src is not None and src['k'] == 'call' and src.get('callee'):
+                        h = f.tu.functions.get(src['callee'])
+                        if h is not None and getattr(h, 'static', False):
+                            for m in h.all_nodes():
+                                bf = _backtrack_factor(h, m)
+                                if bf is not None:
+                                    k, where = bf[1], n
+            if where is None:
+                continue            # bytes written into an object whose backtrack is not derived here
             n_fn += 1
-            # positional factor of the byte copy dst->atom.bytes[i * s] = g(src->atom.bytes[i] | cursor[i])
-            scales = set()
-            for x in f.all_nodes():
-                if x['k'] == 'bin' and x['op'] == '=':
-                    l = cu.strip_casts(f, f.kid(x, 0))
-                    if l is not None and l['k'] == 'sub' and canon(f, f.kid(l, 0)) == '%s->atom.bytes' % dst:
-                        idx = cu.strip_casts(f, f.kid(l, 1))
-                        rhs_idx = [y for y in f.walk(f.kid(x, 1)) if y['k'] == 'sub']
-                        if not rhs_idx:
-                            continue            # constant fill, not a copy
-                        if idx is not None and idx['k'] == 'ref':
-                            scales.add(1)
-                        elif idx is not None and idx['k'] == 'bin' and idx['op'] == '*':
-                            c = cu.const_of(cu.strip_casts(f, f.kid(idx, 1)))
-                            c = c if c is not None else cu.const_of(cu.strip_casts(f, f.kid(idx, 0)))
-                            scales.add(c)
-                        else:
-                            scales.add(None)
-            ok = scales == set([k])
-            ctx.ob('R1.4', '%s:backtrack-scales-with-positions' % f.name, ok, f.loc(n),
+            ok = sc == set([k])
+            ctx.ob('R1.4', '%s:backtrack-scales-with-positions' % f.name, ok, f.loc(where),
                    'bytes are copied to positions i * %d and the backtrack is multiplied by %d' % (k, k)
                    if ok else
                    '%s copies the atom bytes to positions scaled by %s but scales the backtrack by %d: '
                    'an automaton hit is verified at the wrong distance from the atom and every '
                    'occurrence whose atom is not at the string start is missed' % (
-                       f.name, sorted(scales, key=str), k))
+                       f.name, sorted(sc, key=str), k))
     ctx.count('atom_transformations', n_fn)
 
 
